@@ -122,6 +122,10 @@ func planC19(tier string, seed int64) (*Plan, error) {
 	for k := 1; k <= kHex; k++ {
 		p.Jobs = append(p.Jobs, job("H_c19_numref_hex", "k", k))
 	}
+	// long hexadecimal references: 8..17 digits, concrete prefix, two symbolic trailing digits
+	for _, pre := range []string{"100000", "1000000", "10000000", "0000000", "ABCDEF00002", "10000000000000", "100000000000000"} {
+		p.Jobs = append(p.Jobs, job("H_c19_numref_hex", "k", 2, "prefix", pre))
+	}
 	for k := 1; k <= kDec; k++ {
 		p.Jobs = append(p.Jobs, job("H_c19_numref_dec", "k", k))
 		p.Jobs = append(p.Jobs, job("H_c19_numref_dec", "k", k, "leadzero", 1))
@@ -138,7 +142,7 @@ func planC19(tier string, seed int64) (*Plan, error) {
 	p.Bounds = map[string]interface{}{
 		"EscapeHTML":               fmt.Sprintf("all byte strings of length 0..%d (256 values per byte)", nEsc),
 		"URLEscape(false)":         fmt.Sprintf("all byte strings of length 0..%d; length %d..%d over {%%,4,g,space,C3,A9,<}; %%XX triples with symbolic hex digits and 0..1 / 0..2 symbolic lower-case neighbours", nURL, nURL+1, nURL+2),
-		"resolvers":                fmt.Sprintf("all byte strings of length 0..%d; length %d over {&,#,x,1,;,\\,a,C3,A9}; &#x h{1..%d} ; and &# d{1..%d} ; with symbolic digits; & name{1..%d} ; with symbolic letters", nRes, nRes+2, kHex, kDec, kEnt),
+		"resolvers":                fmt.Sprintf("all byte strings of length 0..%d; length %d over {&,#,x,1,;,\\,a,C3,A9}; &#x h{1..%d} ; (plus 8..17-digit references with a concrete prefix and two symbolic digits) and &# d{1..%d} ; with symbolic digits; & name{1..%d} ; with symbolic letters", nRes, nRes+2, kHex, kDec, kEnt),
 		"ToLinkReference":          fmt.Sprintf("all byte strings of length 0..%d plus length %d over {a,A,space,tab,C3,9F}; symbolic per-letter case flips and whitespace-run rewriting", nLink, nLink+2),
 		"BytesFilter":              "histories NewBytesFilter; Add×base; Extend; Extend; Add with 5-6 symbolic keys over a 5-byte alphabet in which four bytes share a hash bucket (1-byte keys), and 2-byte keys over {a,!}",
 		"outside":                  "longer inputs; keys longer than 2 bytes; histories longer than 6 operations",
